@@ -63,7 +63,7 @@ def replay_history(text: str, auto_claim: bool, lf: int, seed: int, n_edits: int
 # ---- C05 -------------------------------------------------------------------------------------------
 def run_c05(ctx: common.Ctx):
     from autobean_refactor.models.internal import properties as props
-    for text, ac, lf, f in documents(ctx, ctx.scale(60, 600)):
+    for text, ac, lf, f in documents(ctx, ctx.scale(300, 3000)):
         seed = ctx.rng.randrange(1 << 30)
         r = random.Random(seed)
         n_edits = ctx.rng.choice([2, 5, 10] if ctx.quick else [5, 10, 25])
@@ -95,12 +95,12 @@ def run_c05(ctx: common.Ctx):
         for p, m in treewalk.walk(f):
             if isinstance(m, edits.base.RawTreeModel) and not isinstance(m, edits.internal.Repeated):
                 for name, prop in edits.class_props(type(m)).items():
-                    if isinstance(prop, props.repeated_node_property) and not name.startswith('_'):
+                    if name.startswith('raw_') and isinstance(prop, edits.internal.base_ro_property):
                         try:
                             w = getattr(m, name)
                         except Exception:
                             continue
-                        if len(w):
+                        if isinstance(w, props.RepeatedNodeWrapper) and len(w):
                             wrappers.append((f'{p}.{name}', w))
         if wrappers:
             name, w = r.choice(wrappers)
@@ -134,7 +134,7 @@ def classify_c06(d: str, out: str) -> str:
 
 
 def run_c06(ctx: common.Ctx):
-    for text, ac, lf, f in documents(ctx, ctx.scale(60, 600), auto_claim=True):
+    for text, ac, lf, f in documents(ctx, ctx.scale(250, 2500), auto_claim=True):
         seed = ctx.rng.randrange(1 << 30)
         r = random.Random(seed)
         n_edits = ctx.rng.choice([1, 3, 6] if ctx.quick else [3, 6, 15])
@@ -170,7 +170,7 @@ def span_text(m) -> str:
 
 def run_c11(ctx: common.Ctx):
     from autobean_refactor.models import base
-    for text, ac, lf, f in documents(ctx, ctx.scale(50, 500)):
+    for text, ac, lf, f in documents(ctx, ctx.scale(200, 2000)):
         # optionally edit first, so copies are taken from documents with moved placeholders etc.
         seed = ctx.rng.randrange(1 << 30)
         r = random.Random(seed)
@@ -224,7 +224,7 @@ def run_c11(ctx: common.Ctx):
 # ---- C20 -------------------------------------------------------------------------------------------
 def run_c20(ctx: common.Ctx):
     from autobean_refactor.models import base
-    for text, ac, lf, f in documents(ctx, ctx.scale(50, 500)):
+    for text, ac, lf, f in documents(ctx, ctx.scale(200, 2000)):
         g = gen_docs.parse_ok(text, ac)
         w = {'text': text, 'auto_claim': ac}
         nf = [(p, m) for p, m in treewalk.walk(f)]
@@ -413,7 +413,7 @@ def run_c15(ctx: common.Ctx):
     p = gen_docs._PARSER if hasattr(gen_docs, '_PARSER') else None
     from autobean_refactor import parser as parser_lib
     parser = parser_lib.Parser()
-    n_per_class = ctx.scale(12, 150)
+    n_per_class = ctx.scale(30, 250)
     for cls in classes:
         sig = inspect.signature(cls.from_value)
         for k in range(n_per_class):
